@@ -6,7 +6,8 @@
 //        <again> = "=" when running the same operation a second time on the result leaves the canonical
 //        dump unchanged (idempotence observed on the real object), otherwise the second dump
 //   cleanup <bits> <geom>  MeshCleanup::Cleanup; bits: 1 degenerated, 2 duplicate, 4 unused, 8 manifold
-//                                                                     -> ok <geom'> | err | err-modified <geom'>
+//                                                                     -> ok <geom'> || <again> | err | err-modified <geom'>
+//        <again> = "=" when a second Cleanup with the same options leaves the dump unchanged
 //   strips <0|1> <geom>    MeshStripifier, 1 = primitive restart with index 0xFFFFFFFF, 0 = degenerate triangles
 //                                                                     -> ok <indicesCSV> | fail
 //   buildmesh <nf> <na> {<attType> <dt> <nc> <nz> <kinds> <hex>}*     TriangleSoupMeshBuilder -> <geom> || <again> | null
@@ -16,6 +17,7 @@
 //   buildpc <np> <dedup> <na> {<attType> <dt> <nc> <nz> <mode> <hex>}*   PointCloudBuilder -> <geom> | null
 //        mode: 0 = SetAttributeValueForPoint per point, 1 = SetAttributeValuesForAllPoints (tight stride),
 //        2 = SetAttributeValuesForAllPoints with a padded stride
+//   buildmeshh <A> -- <B>, buildpch <A> -- <B>: one builder object used for description A, then for B; output as for B
 //
 // Every geometry handed in must be structurally valid (C03); the ops refuse anything else ("invalid-input")
 // instead of running the library outside its contract.
@@ -169,8 +171,11 @@ VH_OP(cleanup) {
   const std::string before = dump(g);
   const Status s = MeshCleanup::Cleanup(g.mesh, o);
   const std::string after = dump(g);
-  if (s.ok()) return "ok " + after;
-  return before == after ? std::string("err") : "err-modified " + after;
+  if (!s.ok()) return before == after ? std::string("err") : "err-modified " + after;
+  // a second run with the same options (theorem cleanup_idempotent: the model returns its input)
+  const Status s2 = MeshCleanup::Cleanup(g.mesh, o);
+  const std::string again = dump(g);
+  return "ok " + after + " || " + (s2.ok() && again == after ? std::string("=") : (s2.ok() ? "ok " : "err ") + again);
 }
 
 VH_OP(strips) {
@@ -215,7 +220,8 @@ VH_OP(stripsh) {
   return "ok " + vh::joinl(out);
 }
 
-VH_OP(buildmesh) {
+// one Start … Finalize cycle of `b` for the description a[1..] = <nf> <na> {att}*
+static std::string run_buildmesh(TriangleSoupMeshBuilder &b, const vh::Args &a) {
   if (a.size() < 3) return "invalid-input";
   const int nf = atoi(a[1].c_str()), na = atoi(a[2].c_str());
   if (nf < 0 || na < 0) return "invalid-input";
@@ -224,7 +230,6 @@ VH_OP(buildmesh) {
     if (!parse_att(a, 3 + 6 * static_cast<size_t>(k), &atts[k])) return "invalid-input";
     if (static_cast<int>(atts[k].kinds.size()) != nf) return "invalid-input";
   }
-  TriangleSoupMeshBuilder b;
   b.Start(nf);
   std::vector<int> ids(na);
   std::vector<std::vector<size_t>> offs(na);
@@ -267,7 +272,34 @@ VH_OP(buildmesh) {
   return d1 + " || " + (d1 == d2 ? std::string("=") : d2) + (r ? "" : " || ret=false");
 }
 
-VH_OP(buildpc) {
+VH_OP(buildmesh) {
+  TriangleSoupMeshBuilder b;
+  return run_buildmesh(b, a);
+}
+
+// splits `<op> A… -- B…` into the argument vectors `<op> A…` and `<op> B…`
+static bool split_history(const vh::Args &a, vh::Args *first, vh::Args *second) {
+  size_t sep = 1;
+  while (sep < a.size() && a[sep] != "--") ++sep;
+  if (sep >= a.size()) return false;
+  first->assign(a.begin(), a.begin() + sep);
+  second->assign(1, a[0]);
+  second->insert(second->end(), a.begin() + sep + 1, a.end());
+  return true;
+}
+
+// buildmeshh <description A> -- <description B>: ONE TriangleSoupMeshBuilder object builds A, then (Start again) B;
+// the answer for B is held to the same standard as a fresh object's: output as `buildmesh B`
+VH_OP(buildmeshh) {
+  vh::Args fa, fb;
+  if (!split_history(a, &fa, &fb)) return "invalid-input";
+  TriangleSoupMeshBuilder b;
+  if (run_buildmesh(b, fa) == "invalid-input") return "invalid-input";
+  return run_buildmesh(b, fb);
+}
+
+// one Start … Finalize cycle of `b` for the description a[1..] = <np> <dedup> <na> {att}*
+static std::string run_buildpc(PointCloudBuilder &b, const vh::Args &a) {
   if (a.size() < 4) return "invalid-input";
   const int np = atoi(a[1].c_str()), na = atoi(a[3].c_str());
   const bool dedup = a[2] == "1";
@@ -275,7 +307,6 @@ VH_OP(buildpc) {
   std::vector<AttIn> atts(na);
   for (int k = 0; k < na; ++k)
     if (!parse_att(a, 4 + 6 * static_cast<size_t>(k), &atts[k])) return "invalid-input";
-  PointCloudBuilder b;
   b.Start(np);
   for (int k = 0; k < na; ++k) {
     AttIn &t = atts[k];
@@ -307,4 +338,19 @@ VH_OP(buildpc) {
   pc->DeduplicatePointIds();
   const std::string d2 = dump_geom(pc.get(), nullptr);
   return d1 + " || " + (d1 == d2 ? std::string("=") : d2) + (r ? "" : " || ret=false");
+}
+
+VH_OP(buildpc) {
+  PointCloudBuilder b;
+  return run_buildpc(b, a);
+}
+
+// buildpch <description A> -- <description B>: ONE PointCloudBuilder object used twice (the MultiUse pattern of
+// point_cloud_builder_test.cc); output as `buildpc B`
+VH_OP(buildpch) {
+  vh::Args fa, fb;
+  if (!split_history(a, &fa, &fb)) return "invalid-input";
+  PointCloudBuilder b;
+  if (run_buildpc(b, fa) == "invalid-input") return "invalid-input";
+  return run_buildpc(b, fb);
 }
